@@ -51,7 +51,15 @@ func c19Prop(rec *ev.Recorder) func(t *rapid.T) {
 		default:
 			g := &gen.FaultGen{T: t}
 			fs := g.Session()
-			for _, s := range fs.Real {
+			big := -1
+			if rapid.IntRange(0, 5).Draw(t, "oversized") == 0 {
+				// a statement refused by the compiler in the middle of the session
+				big = rapid.IntRange(len(gen.FaultPrelude), len(fs.Real)-1).Draw(t, "at")
+			}
+			for i, s := range fs.Real {
+				if i == big {
+					stmts = append(stmts, oversized(33000))
+				}
 				if _, perr := parser.Parse(s); perr == nil {
 					stmts = append(stmts, s)
 				}
@@ -69,6 +77,7 @@ func c19Prop(rec *ev.Recorder) func(t *rapid.T) {
 			return
 		}
 		rec.Count("reports_compared", o.reports)
+		rec.Count("statements_refused_by_the_compiler", o.refused)
 		rec.Case(text, o.reports > 0 && deep, fmt.Sprintf("reports:%d", min(o.reports, 8)))
 	}
 }
